@@ -69,7 +69,8 @@ def e2e_worker(args):
     import multiprocessing as _mp
     if _mp.current_process().name != 'MainProcess':
         appsim.quiet_stderr()
-    pages, seed, conc = args
+    pages, seed, conc = args[:3]
+    opt = args[3] if len(args) > 3 else {}
     import wpull.application.app as wa
     crashes = []
     orig = wa.Application._update_exit_code_from_error
@@ -87,11 +88,19 @@ def e2e_worker(args):
         site['a.test'][path] = Page(raw=raw, close=close)
     site['a.test']['/'] = Page(200, html(links))
     site['a.test']['/robots.txt'] = Page(404, b'')
+    extra = ['-r', '-l', '2', '--tries', '1', '--timeout', '5', '--max-redirect', '3',
+             '--page-requisites', '--link-extractors', 'html,css,javascript', '--sitemaps']
+    if opt.get('robots_raw') is not None:
+        # robots checking ON and the robots.txt answer itself is hostile (the processor's own robots path)
+        site['a.test']['/robots.txt'] = Page(raw=opt['robots_raw'], close=opt.get('robots_close', False))
+    else:
+        extra.append('--no-robots')
+    extra += opt.get('extra', [])
+    workdir = None
+    if opt.get('warc'):
+        extra += ['--warc-file', 'rec', '--warc-max-size', '2000'] + (['--no-warc-compression'] if opt['warc'] == 'plain' else [])
     try:
-        res = appsim.run_crawl(['http://a.test/'], site, seed=seed, concurrent=conc,
-                               extra=['-r', '-l', '2', '--tries', '1', '--no-robots', '--timeout', '5', '--max-redirect', '3',
-                                      '--page-requisites', '--link-extractors', 'html,css,javascript', '--sitemaps'],
-                               max_steps=400000)
+        res = appsim.run_crawl(['http://a.test/'], site, seed=seed, concurrent=conc, extra=extra, max_steps=400000)
     finally:
         wa.Application._update_exit_code_from_error = orig
     return {'crashes': crashes, 'hung': res.hung, 'error': res.error, 'exit_code': res.exit_code,
@@ -117,11 +126,23 @@ def stream_e2e(ctx, n, pages_per=6):
     import concurrent.futures as cf
     import multiprocessing as mp
     rng = ctx.rng
-    args = [(gen_pages(rng, pages_per), rng.randrange(1 << 30), rng.choice([1, 2])) for _ in range(n)]
+    args = []
+    for _ in range(n):
+        opt = {}
+        r = rng.random()
+        if r < 0.3:
+            opt['robots_raw'], opt['robots_close'] = hostile.http_response(rng, body=hostile.robots_doc(rng), ctype='text/plain')
+        if rng.random() < 0.25:
+            opt['warc'] = rng.choice(['gz', 'plain'])
+        if rng.random() < 0.3:
+            opt['extra'] = rng.choice([['--content-disposition'], ['--adjust-extension'], ['--convert-links'], ['--session-timeout', '30'],
+                                       ['--strip-session-id', '--escaped-fragment'], ['--save-headers'], ['--ignore-length'], ['--no-strong-crypto'],
+                                       ['--http-compression'], ['--restrict-file-names', 'windows,lower']])
+        args.append((gen_pages(rng, pages_per), rng.randrange(1 << 30), rng.choice([1, 2]), opt))
     with cf.ProcessPoolExecutor(max_workers=min(ctx.jobs, max(1, len(args))), mp_context=mp.get_context('fork')) as ex:
         results = list(ex.map(e2e_worker, args, chunksize=2))
-    for (pages, seed, conc), r in zip(args, results):
-        case = {'stream': 'e2e', 'pages': [(p[0], p[1], p[2]) for p in pages], 'seed': seed, 'conc': conc}
+    for (pages, seed, conc, opt), r in zip(args, results):
+        case = {'stream': 'e2e', 'pages': [(p[0], p[1], p[2]) for p in pages], 'seed': seed, 'conc': conc, 'opt': opt}
         ctx.case(('e2e', tuple(p[0] for p in pages)), tags=['e2e:requests=%d' % min(r['requests'], 9)])
         judge_e2e(ctx, r, case)
     if args:
@@ -670,7 +691,7 @@ def stream_ftp_proc(ctx, n):
 def replay(ctx, case, kind=None, where=None):
     s = case.get('stream')
     if s == 'e2e':
-        r = e2e_worker(([tuple(p) for p in case['pages']], case['seed'], case['conc']))
+        r = e2e_worker(([tuple(p) for p in case['pages']], case['seed'], case['conc'], case.get('opt') or {}))
         ctx.case(('e2e', case['seed']))
         judge_e2e(ctx, r, case)
     elif s == 'scrape':
